@@ -1,6 +1,6 @@
 (* Model of the module registry of /repo/pkg/yang  (no proofs in this file):
      yang.go:152-169     Module.Current, Module.FullName
-     modules.go:152-185  Modules.add
+     modules.go:152-190  Modules.add (as repaired by the fix for D30; the pinned version is add_old)
      modules.go:190-215  the lookup half of Modules.FindModule (before it goes to disk)
 
    Strings are lists of bytes (N, 0..255) and are compared as Go compares strings:
@@ -65,23 +65,59 @@ Fixpoint mdel (m : smap) (k : str) : smap :=
 
 Definition mset (m : smap) (k : str) (v : header) : smap := (k, v) :: mdel m k.
 
-Record mstate := { Modules : smap; SubModules : smap }.
-Definition NewModules : mstate := {| Modules := []; SubModules := [] |}.
+(* ms.Modules, ms.SubModules and ms.loaded (every accepted node under kind + " " + full name;
+   added by the fix for D30) *)
+Record mstate := { Modules : smap; SubModules : smap; Loaded : smap }.
+Definition NewModules : mstate := {| Modules := []; SubModules := []; Loaded := [] |}.
 
 Definition sel (st : mstate) (k : kind) : smap :=
   match k with KMod => Modules st | KSub => SubModules st end.
 Definition upd (st : mstate) (k : kind) (m : smap) : mstate :=
   match k with
-  | KMod => {| Modules := m; SubModules := SubModules st |}
-  | KSub => {| Modules := Modules st; SubModules := m |}
+  | KMod => {| Modules := m; SubModules := SubModules st; Loaded := Loaded st |}
+  | KSub => {| Modules := Modules st; SubModules := m; Loaded := Loaded st |}
   end.
 
-(* the body of add once the map m has been selected; false = the duplicate error *)
-Definition add_map (m : smap) (h : header) : smap * bool :=
+(* n.Kind(): "module" / "submodule" *)
+Definition kind_str (k : kind) : str :=
+  match k with
+  | KMod => [109; 111; 100; 117; 108; 101]%N
+  | KSub => [115; 117; 98; 109; 111; 100; 117; 108; 101]%N
+  end.
+Definition SPACE : N := 32%N.
+(* kind + " " + fullName *)
+Definition lkey (k : kind) (fullName : str) : str := kind_str k ++ SPACE :: fullName.
+
+(* the filing of an accepted node into the map m of its kind:
+     if fullName != name { m[fullName] = mod }
+     if o := m[name]; o == nil || o.FullName() < fullName { m[name] = mod } *)
+Definition file_map (m : smap) (h : header) : smap :=
+  let name := h_name h in
+  let fullName := FullName h in
+  let m1 := if str_eqb fullName name then m else mset m fullName h in
+  match mget m1 name with
+  | None => mset m1 name h
+  | Some o => if str_ltb (FullName o) fullName then mset m1 name h else m1
+  end.
+
+(* Modules.add(n Node) error, for n a Module node; false = the duplicate error *)
+Definition add (st : mstate) (h : header) : mstate * bool :=
+  let k := h_kind h in
+  let key := lkey k (FullName h) in
+  match mget (Loaded st) key with
+  | Some _ => (st, false)                     (* duplicate %s %s at %s and %s *)
+  | None =>
+      let st1 := upd st k (file_map (sel st k) h) in
+      ({| Modules := Modules st1; SubModules := SubModules st1; Loaded := mset (Loaded st) key h |}, true)
+  end.
+
+(* ---- add as it stood at the pinned commit, before the fix for D30 (kept for the _refuted
+   theorems): the duplicate test looked into the map of the kind itself ---- *)
+Definition add_map_old (m : smap) (h : header) : smap * bool :=
   let name := h_name h in
   let fullName := FullName h in
   match mget m fullName with
-  | Some _ => (m, false)                      (* duplicate %s %s at %s and %s *)
+  | Some _ => (m, false)
   | None =>
       let m1 := mset m fullName h in
       if str_eqb fullName name then (m1, true)
@@ -91,10 +127,8 @@ Definition add_map (m : smap) (h : header) : smap * bool :=
         | Some o => if str_ltb (FullName o) fullName then (mset m1 name h, true) else (m1, true)
         end
   end.
-
-(* Modules.add(n Node) error, for n a Module node *)
-Definition add (st : mstate) (h : header) : mstate * bool :=
-  let '(m', ok) := add_map (sel st (h_kind h)) h in
+Definition add_old (st : mstate) (h : header) : mstate * bool :=
+  let '(m', ok) := add_map_old (sel st (h_kind h)) h in
   (upd st (h_kind h) m', ok).
 
 (* FindModule for an Import (k = KMod) or Include (k = KSub) named [name] with optional
@@ -108,15 +142,20 @@ Definition find (st : mstate) (k : kind) (name : str) (rev : option str) : optio
   end.
 
 (* successive Parse calls on a fresh Modules: final state and the verdict of each add *)
-Fixpoint run_from (st : mstate) (hs : list header) : mstate * list bool :=
-  match hs with
-  | [] => (st, [])
-  | h :: t =>
-      let '(st1, ok) := add st h in
-      let '(st2, oks) := run_from st1 t in
-      (st2, ok :: oks)
-  end.
+Section Run.
+  Variable step : mstate -> header -> mstate * bool.
+  Fixpoint run_with (st : mstate) (hs : list header) : mstate * list bool :=
+    match hs with
+    | [] => (st, [])
+    | h :: t =>
+        let '(st1, ok) := step st h in
+        let '(st2, oks) := run_with st1 t in
+        (st2, ok :: oks)
+    end.
+End Run.
 
+Definition run_from := run_with add.
 Definition run (hs : list header) : mstate * list bool := run_from NewModules hs.
 Definition final (hs : list header) : mstate := fst (run hs).
 Definition verdicts (hs : list header) : list bool := snd (run hs).
+Definition verdicts_old (hs : list header) : list bool := snd (run_with add_old NewModules hs).
